@@ -43,7 +43,8 @@ impl MerkleTree {
     #[verifier::external_body]
     pub fn commit_truncation(&mut self, changeset: &MerkleTreeChangeset)
         ensures final(self).roots == old(self).roots, final(self).length == old(self).length, final(self).byte_length == old(self).byte_length,
-            final(self).fork == old(self).fork, final(self).signature == old(self).signature
+            final(self).fork == old(self).fork, final(self).signature == old(self).signature,
+            final(self).truncate_to <= old(self).truncate_to || final(self).truncate_to <= changeset.ancestors
     { unimplemented!() }
     // ASSUMED here (immediately-invoked closure + IntMap::drain are outside the Verus subset): one 40-byte record per pending node
     #[verifier::external_body]
@@ -61,6 +62,7 @@ impl MerkleTree {
     ensures:
         (r is Ok) == commitable_spec(old(self), &changeset),
         r is Err ==> *final(self) == *old(self),
+        final(self).truncate_to <= old(self).truncate_to || final(self).truncate_to <= changeset.ancestors,
         // what is committed is exactly what the changeset carries, and nothing else
         r is Ok && changeset.upgraded ==> final(self).roots == changeset.roots && final(self).length == changeset.length
             && final(self).byte_length == changeset.byte_length && final(self).fork == changeset.fork && final(self).signature == changeset.signature,
@@ -73,7 +75,8 @@ impl MerkleTree {
             self.length == (if changeset.upgraded { changeset.length } else { old(self).length }),
             self.byte_length == (if changeset.upgraded { changeset.byte_length } else { old(self).byte_length }),
             self.fork == (if changeset.upgraded { changeset.fork } else { old(self).fork }),
-            self.signature == (if changeset.upgraded { changeset.signature } else { old(self).signature })
+            self.signature == (if changeset.upgraded { changeset.signature } else { old(self).signature }),
+            self.truncate_to <= old(self).truncate_to || self.truncate_to <= changeset.ancestors
     @*/
 
     /*@ fn src/tree/merkle_tree.rs MerkleTree::flush_truncation
@@ -120,4 +123,30 @@ impl MerkleTree {
 pub open spec fn is_node_write(info: StoreInfo) -> bool {
     info.store == Store::Tree && info.info_type == StoreInfoType::Content && !info.miss && info.data is Some
         && info.data->Some_0@.len() == 40 && info.index % 40 == 0
+}
+
+impl MerkleTreeChangeset {
+    // ASSUMED here (leaf hash + mountain-range merge; to be proved in unit merkle)
+    #[verifier::external_body]
+    pub fn append(&mut self, data: &[u8]) -> (r: usize)
+        requires old(self).length < 0xffff_ffff_ffff, old(self).byte_length + data@.len() <= u64::MAX, old(self).batch_length < u64::MAX
+        ensures r == data@.len(),
+            final(self).length == old(self).length + 1, final(self).byte_length == old(self).byte_length + data@.len(),
+            final(self).batch_length == old(self).batch_length + 1, final(self).upgraded,
+            final(self).ancestors == old(self).ancestors, final(self).fork == old(self).fork,
+            final(self).original_tree_length == old(self).original_tree_length, final(self).original_tree_fork == old(self).original_tree_fork,
+            final(self).hash == old(self).hash, final(self).signature == old(self).signature,
+            final(self).nodes@.len() <= old(self).nodes@.len() + 64,
+            (forall|i: int| 0 <= i < old(self).nodes@.len() ==> (#[trigger] old(self).nodes@[i]).hash@.len() == 32)
+                ==> (forall|i: int| 0 <= i < final(self).nodes@.len() ==> (#[trigger] final(self).nodes@[i]).hash@.len() == 32)
+    { unimplemented!() }
+    // ASSUMED here (BLAKE2b tree hash + Ed25519 signature are uninterpreted; to be refined in unit merkle)
+    #[verifier::external_body]
+    pub fn hash_and_sign(&mut self, signing_key: &SigningKey)
+        ensures final(self).hash is Some && final(self).hash->Some_0@.len() == 32 && final(self).signature is Some,
+            final(self).length == old(self).length, final(self).byte_length == old(self).byte_length, final(self).batch_length == old(self).batch_length,
+            final(self).upgraded == old(self).upgraded, final(self).ancestors == old(self).ancestors, final(self).fork == old(self).fork,
+            final(self).roots == old(self).roots, final(self).nodes == old(self).nodes,
+            final(self).original_tree_length == old(self).original_tree_length, final(self).original_tree_fork == old(self).original_tree_fork
+    { unimplemented!() }
 }
